@@ -152,6 +152,10 @@ class C18(object):
                 op["reuse_reader"] = rnd.random() < 0.4   # read into a columnfile object that already read another file
             if fam == "sparse" and kind in ("save", "resave"):
                 op["overwrite"] = rnd.random() < 0.5   # save into the group that is already there
+            if fam == "pars" and kind == "resave":
+                op["via_indexer"] = rnd.random() < 0.4    # the file goes through indexer.loadpars / savepars
+            if fam == "cf_hdf" and kind == "load":
+                op["mmap"] = rnd.random() < 0.25          # read with mmap_h5colf
             if fam == "cf_hdf":
                 op["group"] = rnd.choice(["peaks", "peaks", "g2"])
                 op["variant"] = rnd.choice(["to_hdf", "to_hdf", "obj_to_hdf"])
@@ -268,7 +272,8 @@ class C18(object):
             for i, v in enumerate(vals):
                 if exact:
                     if FMT.get(t) == "int":
-                        if got.dtype.kind not in "iu" or int(got[i]) != int(v):
+                        if (got.dtype.kind not in "iu" and not getattr(self, "values_only", False)) or not (float(got[i]) == float(v)) \
+                                or int(got[i]) != int(v):
                             return "%s: integer column %s row %d: saved %r, read %r (dtype %s)" % (where, t, i, v, got[i], got.dtype)
                     elif not (float(got[i]) == v):
                         return "%s: column %s row %d: saved %r, read %r" % (where, t, i, v, got[i])
@@ -411,6 +416,10 @@ class C18(object):
                 if fam == "cf_text":
                     reader["obj"] = M["columnfile"].columnfile(p)
                     return reader["obj"]
+                if fam == "cf_hdf" and op.get("mmap"):
+                    counts["mmap_loads"] += 1
+                    self.values_only = True     # colfile_from_dict stores the mapped columns in one float array
+                    return M["columnfile"].mmap_h5colf(p, path=op.get("group", "peaks"))
                 if fam == "cf_hdf":
                     if len(hdf_groups_in(slot)) == 1 and op.get("reuse_reader"):
                         reader["obj"] = M["columnfile"].columnfile(p)  # the magic-number route of readfile
@@ -518,11 +527,33 @@ class C18(object):
                     break
                 counts["load_checked"] += 1
                 self.lenient_dtype = bool(st.get("over"))
+                self.values_only = False
                 e = compare(st["ack"], obj, "step %d (%s slot %s)" % (step, op["op"], k))
                 if e:
                     viol = V("readback-differs", e)
                     break
-                if op["op"] == "resave" and fam in ("cf_text", "pars", "grains_text"):
+                if op["op"] == "resave" and fam == "pars" and op.get("via_indexer"):
+                    p2 = path(op["to"])
+                    try:
+                        with contextlib.redirect_stdout(io.StringIO()):
+                            ix = M["indexing"].indexer()
+                            ix.loadpars(path(op["slot"]))
+                            ix.savepars(p2)
+                            pr2 = M["parameters"].parameters()
+                            pr2.loadparameters(p2)
+                    except Exception as e2:
+                        viol = V("resave-raises", "step %d: indexer.loadpars / savepars of a parameter file raised %s: %s" % (step, type(e2).__name__, e2))
+                        break
+                    counts["parameter_files_through_an_indexer"] += 1
+                    e = self.cmp_pars(st["ack"]["pars"], {k_: v_ for k_, v_ in pr2.parameters.items() if k_ in st["ack"]["pars"]},
+                                      "step %d: parameter file loaded into an indexer and saved from it" % step)
+                    if e is None and set(st["ack"]["pars"]) - set(pr2.parameters):
+                        e = "step %d: parameters %s lost on the way through an indexer" % (step, sorted(set(st["ack"]["pars"]) - set(pr2.parameters)))
+                    if e:
+                        viol = V("readback-differs", e)
+                        break
+                    model[(op["to"], "")] = {"ack": None, "dirty": True}
+                elif op["op"] == "resave" and fam in ("cf_text", "pars", "grains_text"):
                     # second generation: save what was loaded into another slot, load it, must equal the first load exactly
                     to = op["to"]
                     p2 = path(to)
